@@ -684,6 +684,8 @@ class TraitListObject(TraitList):
             The modified list.
         """
 
+        # Like list, accept any integer-like multiplier.
+        value = operator.index(value)
         self._validate_length(max(0, len(self) * value))
         return super().__imul__(value)
 
